@@ -121,6 +121,7 @@ class Engine(HeapMixin, ExprMixin, AccessMixin, CallMixin, StmtMixin, BytesMixin
     self.globals_used = set()
     self.ghost_hits = set()
     self.anchor_maps = {}
+    self.aspect_assumed = 0
     self.degraded = []        # parts of the (changed) function the sidecar does not cover: handled by over-approximation or skipped
     self.anchor_drift = []
     self.assumes = []
@@ -154,7 +155,26 @@ class Engine(HeapMixin, ExprMixin, AccessMixin, CallMixin, StmtMixin, BytesMixin
     else:
       self._oblige1(st, name, goal, node, desc)
 
+  def _aspect_skips(self, desc):
+    """In an aspect unit ('Func@aspect') the base contract's obligations are the base unit's business: they are
+    assumed here, and only clauses the aspect adds (to this function or to a callee) are proved."""
+    u = self.reg.functions.get(self.unit)
+    if u is None or not u.aspect or not u.base_name:
+      return False      # (a unit that merely *uses* an aspect of its callees proves everything itself)
+    norm = lambda t: re.sub(r'[\\\'"\s]', '', t)
+    d = norm(desc)
+    for f in self.reg.functions.values():
+      if f.aspect == u.aspect:
+        for c in f.aspect_clauses:
+          if norm(c) in d:
+            return False
+    return True
+
   def _oblige1(self, st, name, goal, node, desc):
+    if self._aspect_skips(desc):
+      st.assume(goal)
+      self.aspect_assumed += 1
+      return
     sb = simp_bool(goal)
     ob = Obligation(self.unit, name, desc, list(st.pc), goal, getattr(node, 'lineno', None), list(st.path))
     ob.choices = list(st.choices)
